@@ -44,6 +44,10 @@ CLAIMED = {
 }
 
 CLAIMED.update({
+    "C01": ("who-reads-what enumeration (every query_pools caller) + guard dominance + first-deposit ordering walk + message-target enumeration + callee lint",
+            "Every function of the pair that reads pool balances subtracts the pending protocol fees; funds are validated before pricing and deposits "
+            "excluded / pulled; the minimum liquidity is minted to the pool only when total share is zero, zero user share rejected, and only Mint/Burn ever goes "
+            "to the LP token; floor-family rounding only. LP-value monotonicity, pro-rata and solvency over histories are numerical: not decided.", "§4 C01-C05"),
     "C02": ("abort-site enumeration with provenance-matched discharge table + fee-split provenance",
             "Every operation in the constant-product arm of compute_swap that can abort matches a discharge pattern (operation + operand "
             "provenance + arithmetic reason); three fees are computed from one gross amount on the three pool_fees fields and all subtracted; "
@@ -53,6 +57,10 @@ CLAIMED.update({
             "guard expressions evaluated symbolically); on acceptance initial_amp := current amp, initial block := height, targets := request; "
             "3-pool direction tables are permutations and agree across swap/simulate/reverse. Solvency, D monotonicity, there-and-back, "
             "interpolation linearity are numerical: not decided.", "§4 C01-C05"),
+    "C05": ("pending-ledger subtraction at every pricing site + ordering walk of the funds check + first-deposit rules + callee lint",
+            "Vault deposit, withdraw and share query price with balance minus pending fees; a native deposit mints only when funds == amount and a cw20 deposit "
+            "is pulled by an attached TransferFrom; minimum liquidity locked in the vault on the first deposit only; nothing but Mint/Burn goes to the LP token; "
+            "no mint while LOAN_COUNTER != 0; floor-family rounding. Share-price monotonicity is numerical: not decided.", "§4 C01-C05"),
     "C06": ("guard dominance + push-order dominance + ordering-domain walks + fee-set agreement between sibling computations",
             "Callback self-guard; flash_loan message order loan->borrower->AfterTrade(last) with old_balance from this call's query; success "
             "reachable iff required <= balance with required = old + three CONFIG fees of the loan; counter inc/dec pairing; no mint "
